@@ -21,11 +21,16 @@ def t1_conds(mode, vocab, n, nparts, ctx=0, sep="lf", timeout=300, tag=""):
     return out
 
 
-def t2_conds(mode, k, timeout=300, sep="lf", cmds=None):
+def t2_conds(mode, k, timeout=300, sep="lf", cmds=None, split=1):
+    """split > 1: commands with a large argument vocabulary are partitioned on the first argument"""
     out = []
     for c in (cmds or P.t2_commands()):
-        out.append(Cond("t2-%s-k%d-%s" % (c, k, sep), F, "t2_k%d" % k,
-                        env={"T2_CMD": c, "T1_MODE": mode, "T1_SEP": sep}, timeout=timeout))
+        na = len(P.t2_space(c)[1])
+        ps = parts(na, split) if (split > 1 and na >= 14) else [(0, na)]
+        for lo, hi in ps:
+            out.append(Cond("t2-%s-k%d-%s-%02d_%02d" % (c, k, sep, lo, hi), F, "t2_k%d" % k,
+                            env={"T2_CMD": c, "T1_MODE": mode, "T1_SEP": sep, "T2_LO": lo,
+                                 "T2_HI": hi}, timeout=timeout))
     return out
 
 
